@@ -51,6 +51,12 @@ func depthAdj() int {
 
 // engineA runs the given scenario specs with the monitor factory and reports.
 func engineA(id, tier string, specs []scen.Spec, mons func() []explore.Monitor, total time.Duration, assumptions ...string) int {
+	return engineAWith(id, tier, specs, mons, total, nil, assumptions...)
+}
+
+// engineAWith is engineA with an extra step that may add coverage and
+// findings to the outcome before it is finished (C14's format enumerator).
+func engineAWith(id, tier string, specs []scen.Spec, mons func() []explore.Monitor, total time.Duration, extra func(o *runner.Outcome), assumptions ...string) int {
 	o := runner.New(id, tier, "model_checking")
 	o.Assumptions = append([]string{
 		"trusted base: Go, cosmos-sdk v0.47.12 (baseapp cache semantics, auth, bank, ORM, IAVL), cometbft-db MemDB, protobuf",
@@ -104,5 +110,8 @@ func engineA(id, tier string, specs []scen.Spec, mons func() []explore.Monitor, 
 		stats[len(stats)-1].Vacuity = append(stats[len(stats)-1].Vacuity, specVac...)
 	}
 	o.AddExplore(chain.New(chain.Options{}), stats, found)
+	if extra != nil {
+		extra(o)
+	}
 	return o.Finish()
 }
